@@ -201,7 +201,14 @@ func Drive(p *Prop, tier string) int {
 					"--shard", fmt.Sprint(shard), "--of", fmt.Sprint(workers), "--after", fmt.Sprint(after), "--out", out)
 				cmd.Stdout = ef
 				cmd.Stderr = ef
-				cmd.Env = append(os.Environ(), "GOMAXPROCS="+fmt.Sprint(max(2, 2*runtime.NumCPU()/workers)))
+				// the number of Ps is part of the environment the code under test
+				// may depend on (work split over GOMAXPROCS goroutines, per-P
+				// pools): workers run with different counts, fixed per shard
+				procs := max(2, 2*runtime.NumCPU()/workers)
+				if !race {
+					procs = []int{procs, 3, procs, 5, procs, 6, 1, 7}[shard%8]
+				}
+				cmd.Env = append(os.Environ(), "GOMAXPROCS="+fmt.Sprint(procs))
 				if race {
 					cmd.Env = append(cmd.Env, "GORACE=halt_on_error=0 log_path="+filepath.Join(work, fmt.Sprintf("race.w%d.%d", shard, attempt)))
 				}
